@@ -225,8 +225,8 @@ func (env *Env) eval(ex Expr) (TV, error) {
 			}
 		}
 		body := b.T
-		if len(lets) > 0 {
-			body = fmt.Sprintf("(let (%s) %s)", strings.Join(lets, " "), body)
+		for i := len(lets) - 1; i >= 0; i-- {
+			body = fmt.Sprintf("(let (%s) %s)", lets[i], body)
 		}
 		qn := "forall"
 		if !n.Forall {
@@ -740,6 +740,9 @@ func (env *Env) evalCall(n *Call) (TV, error) {
 		return TV{}, fmt.Errorf("len of %s", typeStr(t))
 	case "cap":
 		return TV{"(scap " + args[0].T + ")", tyInt}, nil
+	case "allocmark":
+		// the allocation counter: every object with a reference >= allocmark() is allocated later
+		return TV{env.st.alloc, types.Typ[types.UnsafePointer]}, nil
 	case "off":
 		return TV{"(soff " + args[0].T + ")", tyInt}, nil
 	case "backing":
